@@ -309,8 +309,11 @@ class SymEnv:
         return SymReal(v, None, dim)
 
     def fixed(self, name, value, dim=None):
-        """an input pinned to a concrete value (still reported in models)"""
-        return SymReal.const(value)
+        """an input pinned to a concrete value; with ``dim`` it still carries its physical
+        dimension, so the run type-checks homogeneity while the arithmetic stays linear"""
+        if dim is not None:
+            self.p.dim_tracked = True
+        return SymReal.const(value, dim)
 
     def homogeneous(self, name="homogeneous"):
         """obligation: every operation executed so far on this path was dimensionally consistent,
